@@ -1,10 +1,97 @@
-(* Properties/C09.v — statements only (C09: coroutines). *)
+(* Properties/C09.v — statements only.  C09: coroutines — exact value transfer, legal status
+   transitions, one thread at a time, no deadlock, no goroutine left behind.
+   Model: GV.Thread.Proto (the hand-off protocol of runtime/thread.go as an interleaving
+   small-step semantics over atomic actions; [reachable cf s] = s is reached from [init] by some
+   sequence of actions, any number of threads, any interleaving).  [current] is the code as it
+   stands (ReleaseBytes before the hand-off send since fix eafa506; pending __close handlers
+   discarded on termination since 8db1ed8), [old_order] the order before eafa506, [repaired]
+   additionally forbids coroutine operations inside handlers run by end. *)
 From Coq Require Import List Bool Arith.
-From GV Require Import Thread.Proto Thread.Inv.
+From GV Require Import Thread.Proto Thread.Inv Thread.Preserve Thread.Refute.
 Import ListNotations.
 
-Theorem C09_reachable_induction : forall cf (P : state -> Prop),
-  P init -> (forall s a s', reachable cf s -> P s -> step cf s a = Some s' -> P s') ->
-  forall s, reachable cf s -> P s.
-Proof. exact reachable_ind'. Qed.
-Print Assumptions C09_reachable_induction.
+(* One goroutine at a time: at most one goroutine is active (not blocked in a receive, not
+   terminated, not in the post-send tail of end) in every reachable state, one exists unless the
+   process died, and every goroutine whose next action reads or writes shared runtime state is the
+   active one: no two goroutines ever have a runtime access enabled together (race freedom of the
+   modelled accesses).  Holds for every configuration that releases before the send. *)
+Theorem C09_baton_unique : forall cf s, rel_after_send cf = false -> reachable cf s ->
+  (forall g h, active (pc s g) = true -> active (pc s h) = true -> g = h) /\
+  (exists g, active (pc s g) = true \/ pc s g = Panicked) /\
+  (forall g h, accessing (pc s g) = true -> accessing (pc s h) = true -> g = h) /\
+  (forall g, accessing (pc s g) = true -> active (pc s g) = true).
+Proof. exact baton_unique. Qed.
+Print Assumptions C09_baton_unique.
+
+Theorem C09_baton_unique_current : forall s, reachable current s ->
+  forall g h, accessing (pc s g) = true -> accessing (pc s h) = true -> g = h.
+Proof. intros s R. exact (proj1 (proj2 (proj2 (baton_unique current s eq_refl R)))). Qed.
+Print Assumptions C09_baton_unique_current.
+
+(* Regression witness: with ReleaseBytes after the send (the code before eafa506) a reachable state
+   has two different goroutines about to touch the runtime, one of them not the baton holder. *)
+Theorem C09_baton_unique_old_order_refuted :
+  exists s g h, reachable old_order s /\ g <> h /\
+    accessing (pc s g) = true /\ accessing (pc s h) = true /\ active (pc s h) = false.
+Proof. exact baton_unique_old_order_refuted. Qed.
+Print Assumptions C09_baton_unique_old_order_refuted.
+
+(* No deadlock is FALSE of the code as it stands: a reachable state in which main has not finished,
+   nobody panicked and no action at all is enabled (end runs a __close handler that resumes a
+   coroutine while holding the mutex Resume needs). *)
+Theorem C09_no_deadlock_refuted :
+  exists s, reachable current s /\ main_done s = false /\ (forall h, pc s h <> Panicked) /\
+    forall a, step current s a = None.
+Proof. exact no_deadlock_refuted. Qed.
+Print Assumptions C09_no_deadlock_refuted.
+
+(* A dead coroutine's goroutine is past the status write of end — in the remaining straight-line
+   section of end or terminated — and never again blocked waiting for a resume. *)
+Theorem C09_no_goroutine_left : forall cf s h, reachable cf s -> status (th s h) = Dead ->
+  in_end (pc s h) = true /\ waiting (pc s h) = false.
+Proof. exact no_goroutine_left. Qed.
+Print Assumptions C09_no_goroutine_left.
+
+(* Legal status transitions: one action changes a thread's status only by R4 (a resumer/closer
+   makes its target OK), Y4 (the yielding thread suspends itself), E4 (the ending thread becomes
+   Dead) or creation (Suspended). *)
+Theorem C09_status_table : forall cf s a s' t, step cf s a = Some s' ->
+  status (th s' t) = status (th s t) \/
+  (exists k v, pc s (who a) = R4 k t v /\ status (th s' t) = OK) \/
+  (exists c v, pc s (who a) = Y4 c v /\ t = who a /\ status (th s' t) = Suspended) \/
+  (exists c m, pc s (who a) = E4 c m /\ t = who a /\ status (th s' t) = Dead) \/
+  (pc s (who a) = Lua /\ t = n s /\ n s' = S (n s) /\ status (th s' t) = Suspended).
+Proof. exact status_table. Qed.
+Print Assumptions C09_status_table.
+
+(* Only a Suspended thread can be resumed or closed; for self/normal/dead targets the operation
+   returns to Lua (with an error) and changes no status, caller or channel. *)
+Theorem C09_resume_guard : forall cf s g l s' k t v, pc s g = R2 k t v -> step cf s (mkAct g l) = Some s' ->
+  (status (th s t) = Suspended /\ pc s' g = R3 k t v /\ th s' = th s) \/
+  (status (th s t) <> Suspended /\ (pc s' g = Lua \/ pc s' g = Panicked) /\
+   forall h, status (th s' h) = status (th s h) /\ caller (th s' h) = caller (th s h) /\
+             closed (th s' h) = closed (th s h)).
+Proof. exact resume_guard. Qed.
+Print Assumptions C09_resume_guard.
+
+(* Exact transfer: a rendezvous delivers the sender's message unchanged to exactly the thread the
+   operation names, which was blocked in its receive; nobody else moves; no thread field changes. *)
+Theorem C09_values_transferred_exactly : forall cf s g s', step cf s (mkAct g LRdv) = Some s' ->
+  pc s' g <> Panicked ->
+  exists r, (sends_to (pc s g) = Some (inr r) \/ exists m, sends_to (pc s g) = Some (inl (r, m))) /\
+    r <> g /\ waiting (pc s r) = true /\ waiting (pc s' r) = false /\
+    (forall m, sends_to (pc s g) = Some (inl (r, m)) ->
+       pc s' r = match m with MTerm => after_recv r MTerm | _ => Lua end) /\
+    (sends_to (pc s g) = Some (inr r) -> pc s' r = E0 (MVal 0)) /\
+    (forall h, h <> g -> h <> r -> pc s' h = pc s h) /\ th s' = th s.
+Proof. exact values_transferred_exactly. Qed.
+Print Assumptions C09_values_transferred_exactly.
+
+(* Non-vacuity / acceptor sanity: a full resume-return cycle is a behaviour of [current] and not of
+   [old_order]; the old-order cycle is rejected by [current]. *)
+Theorem C09_acceptor_examples :
+  accepts current fixed_trace = true /\ accepts old_order fixed_trace = false /\
+  accepts current race_trace = false /\ accepts repaired deadlock_trace = false /\
+  accepts current deadlock_trace = true.
+Proof. vm_compute. auto. Qed.
+Print Assumptions C09_acceptor_examples.
